@@ -188,8 +188,20 @@ class Evaluator:
             if v is None:
                 return "none"
             return type(v).__name__
+        if h == "setof" and len(t) == 3:
+            return ("frozenset", None)
         if h in ("union", "inter", "diff", "setof", "setlit", "empty"):
             return ("set", None)
+        if h == "tuplelit":
+            return ("tuple", None)
+        if h == "listlit":
+            return ("list", None)
+        if h == "dictlit":
+            return ("dict", None, None)
+        if h == "concat":
+            return self.typeof(t[1])
+        if h == "slice":
+            return self.typeof(t[1])
         if h == "comp":
             return {"set": ("set", None), "list": ("list", None), "gen": ("iter", None), "dict": ("dict", None, None)}[t[1]]
         if h == "attr":
@@ -1527,12 +1539,16 @@ class Evaluator:
             if not args:
                 return [(state, EMPTY)]
             a = args[0]
-            if a[0] in ("listlit", "tuplelit") :
+            if name == "set" and a[0] in ("listlit", "tuplelit"):
                 return [(state, ("setlit", a[1]))]
-            if a[0] == "comp" and a[1] in ("gen", "list"):
+            if name == "set" and a[0] == "comp" and a[1] in ("gen", "list"):
                 return [(state, ("comp", "set", a[2], a[3]))]
+            if name == "frozenset":
+                if a[0] == "setof":
+                    return [(state, ("setof", a[1], "frozen"))]
+                return [(state, ("setof", a, "frozen"))]
             if a[0] in ("setof", "union", "inter", "diff", "setlit", "empty") or (a[0] == "comp" and a[1] == "set"):
-                return [(state, a)]
+                return [(state, a if a[0] != "setof" else ("setof", a[1]))]
             return [(state, ("setof", a))]
         if name in ("list", "tuple", "sorted", "iter", "reversed"):
             if not args:
@@ -1635,6 +1651,8 @@ class Evaluator:
                 return None
             if any(n in m for n in short):
                 return True
+            if typ[0] == "set" and "frozenset" in short:
+                return None  # a value abstracted as "a set" may be a frozenset
             return False
         if typ in ("str", "int", "bool", "float", "none"):
             if typ in short or (typ == "bool" and "int" in short):
